@@ -64,21 +64,28 @@ def featurize(scn, res, v):
     lines = res["lines"]
     k = v["matched"]
     d = scn["classes"][0]
-    copied_before_activation = False
     listener_only_async = False
     ctor_provs = scn["steps"][0]["provs"]
     async_on_machine_or_model = any(cb["coro"] and cb["prov"] in ("sm", "model") for cb in d["cbs"])
     async_any = any(cb["coro"] and cb["prov"] in ctor_provs for cb in d["cbs"])
-    activated = False
-    written_before_activation = False
+    # per slot, along the copy chain: was the machine written from outside before its activation, and was it
+    # copied while its activation was still pending
+    activated, wba, cba = {1: False}, {1: False}, {1: False}
     for ln in lines[:k + 1]:
-        if ln["e"] == "call" and ln["api"] in ("write_setter", "write_model") and not activated and async_any:
-            written_before_activation = True
-        if ln["e"] == "ret" and ln["proj"][0]["cur"] != "" and not written_before_activation:
-            activated = True
+        if ln["e"] == "call" and ln["api"] in ("write_setter", "write_model") and async_any and not activated.get(ln["i"], False):
+            wba[ln["i"]] = True
+        if ln["e"] == "ret":
+            for j, p in enumerate(ln["proj"], start=1):
+                if p["cur"] != "" and not wba.get(j, False) and j in activated:
+                    activated[j] = True
         if ln["e"] == "call" and ln["api"] == "copy":
-            if async_any and not activated and ln["i"] == 1:
-                copied_before_activation = True
+            i, j = ln["i"], ln["j"]
+            activated[j] = activated.get(i, False)
+            wba[j] = wba.get(i, False)
+            cba[j] = cba.get(i, False) or (async_any and not activated.get(i, False))
+    nslot = (lines[k] if k < len(lines) else {}).get("i", 1)
+    copied_before_activation = cba.get(nslot, False)
+    written_before_activation = wba.get(nslot, False)
     if async_any and not async_on_machine_or_model:
         listener_only_async = True
     nxt = lines[k] if k < len(lines) else {}
